@@ -4,6 +4,7 @@ import (
 	"bytes"
 	"fmt"
 	"math"
+	"sync"
 )
 
 // https://github.com/golang/net/blob/5a444b4f2fe893ea00f0376da46aa5376c3f3e28/http2/http2.go#L112-L119
@@ -27,6 +28,11 @@ type HeaderField struct {
 }
 
 type HTTP2FingerprintingFrames struct {
+	// The HTTP2 server keeps recording frames of the connection while the
+	// handlers of earlier requests are reading them (Marshal), therefore
+	// writers and readers must hold the lock
+	sync.Mutex
+
 	// Data from SETTINGS frame
 	Settings []Setting
 
@@ -46,6 +52,9 @@ func (f *HTTP2FingerprintingFrames) String() string {
 
 // TODO: add tests
 func (f *HTTP2FingerprintingFrames) Marshal(maxPriorityFrames uint) string {
+	f.Lock()
+	defer f.Unlock()
+
 	var buf bytes.Buffer
 
 	// SETTINGS frame
